@@ -153,7 +153,10 @@ def run_case(case, ctx):
     on = case['on']
     params = case['params']
     log = []
-    src = 'def f(%s):\n    _log.append((%s))\n    return ("f", %s)\n' % (', '.join('%s=%r' % (p, case['fdefaults'][p]) if p in case['fdefaults'] else p for p in params),
+    plist = ['%s=%r' % (p, case['fdefaults'][p]) if p in case['fdefaults'] else p for p in params]
+    if case.get('kwonly_defaults') and case['fdefaults']:
+        plist.insert(len(params) - len(case['fdefaults']), '*')        # the defaulted parameters are keyword-only
+    src = 'def f(%s):\n    _log.append((%s))\n    return ("f", %s)\n' % (', '.join(plist),
                                                                              ''.join(p + ', ' for p in params), ''.join(p + ', ' for p in params))
     g = {'_log': log}
     exec(src, g)
@@ -330,6 +333,18 @@ def gen_case(rng):
             keys = rng.sample(universe, rng.choice([0, 1, 2, 3, len(universe)]))
             t['rows'] = [dict(k, v='%s%s' % (p[0], ''.join(str(k[c]) for c in on))) for k in keys]
     case = {'kt': kt, 'on': on, 'on_str': rng.random() < 0.5, 'params': params, 'fdefaults': fdefaults, 'inputs': inputs, 'defaults': explicit_defaults}
+    if fdefaults and rng.random() < 0.35:
+        case['kwonly_defaults'] = True
+    if not tables and all(p in inputs for p in params) and rng.random() < 0.5:
+        # all inputs scalars, one of them called 'data' (the name under which a function sees its own previous output) holding a compound value
+        last = params[-1]
+        case['params'] = params[:-1] + ['data']
+        inputs['data'] = rng.choice([{'$t': [5, 6]}, [1, 2], [7], 3, 'sc', {'$t': [1, 2, 3]}])
+        inputs.pop(last, None)
+        if last in fdefaults:
+            case['fdefaults'] = {}
+            for q in case['params']:
+                inputs.setdefault(q, 'sc' + q)
     if tables and rng.random() < 0.6:
         full = [s for s in inputs.values() if isinstance(s, dict) and 'rows' in s and s['on'] == on]
         pool = universe
